@@ -339,9 +339,10 @@ func (e *exec) setOnReload(f func(string)) { e.onReload = f }
 
 // ---- setup ----
 
-// richLabels gives the C16 / C18 profiles label sets with shared and absent labels.
+// richLabels gives the C16 / C18 profiles label sets with shared and absent labels; "id" has one value per series
+// (the postings offset table of a block samples every 32nd value of a label: runs with 30-70 series cross that).
 func richLabels(i int) labels.Labels {
-	l := []string{"__name__", "m", "s", fmt.Sprint(i % 4), "job", []string{"a", "b"}[i%2]}
+	l := []string{"__name__", "m", "s", fmt.Sprint(i % 4), "job", []string{"a", "b"}[i%2], "id", fmt.Sprintf("v%03d", i)}
 	if i%2 == 1 {
 		l = append(l, "odd", "y")
 	}
